@@ -42,6 +42,15 @@ func MarshalTWKB(g Geometry, precXY int, opts ...TWKBWriterOption) ([]byte, erro
 		return []byte{}, fmt.Errorf("TWKB got precM = %d, expected it to be between 0 and +7", s.precM)
 	}
 
+	if len(s.idList) > 0 {
+		switch g.Type() {
+		case TypePoint, TypeLineString, TypePolygon:
+			// These have no members to identify. Setting the ID list flag
+			// for them produces TWKB that cannot be parsed back.
+			return nil, fmt.Errorf("TWKB ID list given for a %s, which has no members", g.Type())
+		}
+	}
+
 	w := newtwkbWriter(hasZ, hasM, precXY, s.precZ, s.precM, s.hasSize, s.hasBBox, s.closeRings, s.idList)
 	if err := w.writeGeometry(g); err != nil {
 		return nil, fmt.Errorf("failed to marshal TWKB: %w", err)
